@@ -76,3 +76,44 @@ def assemble (groups cols : List (List Nat)) : Nat → Nat :=
 def permuted {β : Type} (coords2 : Nat → β) (perm : Nat → Nat) : Nat → β := fun a => coords2 (perm a)
 
 end TopSearch.Align
+
+/-! ### permutation assembly when the two structures distribute their atoms differently
+
+  `get_permutable_groups` returns TWO families of groups: `perm_atoms1` (atoms of the first
+  structure with a given species/environment) and `perm_atoms2` (the same for the second).  For
+  structures inside the alignment's domain they coincide (the model above); in general they need
+  not.  The code then writes, for each group `(g1, g2)` with Hungarian answer `col`,
+
+      permutation[g1[idx]]     := g1[col[idx]]
+      permuted_coords[g1[idx]] := source[g2[col[idx]]]
+
+  where `source` is the UNTOUCHED second structure `coords2` — that is what makes the result
+  independent of the order in which the groups are processed (an order that comes from iterating a
+  Python `set` of strings).  `assembleCoords` models the coordinate part for an arbitrary read policy:
+  `pristine = true` reads from the input, `pristine = false` reads from the working copy that is
+  being overwritten (the variant a seeded defect introduced). -/
+namespace TopSearch.Align
+
+/-- one group: the atoms written (first structure), the atoms read (second structure), the
+    Hungarian column answer -/
+structure Grp where
+  g1 : List Nat
+  g2 : List Nat
+  col : List Nat
+  deriving Repr, DecidableEq
+
+variable {β : Type}
+
+/-- process one group on the working copy `w` (which starts as a copy of `coords2`) -/
+def assembleCoordsGroup (pristine : Bool) (coords2 : Nat → β) (w : Nat → β) (g : Grp) : Nat → β :=
+  if g.g1.length ≤ 1 then w          -- single-atom groups are not touched (`else` branch of the code)
+  else
+    let src := if pristine then coords2 else w
+    (g.g1.zip g.col).foldl (fun acc (ac : Nat × Nat) =>
+      fun x => if x = ac.1 then src (g.g2.getD ac.2 0) else acc x) w
+
+/-- all groups in the given order -/
+def assembleCoords (pristine : Bool) (coords2 : Nat → β) (gs : List Grp) : Nat → β :=
+  gs.foldl (assembleCoordsGroup pristine coords2) coords2
+
+end TopSearch.Align
